@@ -55,7 +55,11 @@ func TestVerif_C05(t *testing.T) {
 	}
 	rep := vh.NewReport("C05", "legacy", "legacy format (Version 1): every added signature must be reported present by Writer.Has and by the sealed file read through mmap, *os.File and bytes.Reader; a probe is reported present only if an added signature has its two-byte prefix and xxhash64; Writer.Has = Reader.Has on every probe; small runs are re-evaluated by the Coq model (writer, model reader on the Go-written bytes, model reader on the model-written file)")
 	cases := vh.NewCases("c05_legacy_cases", []string{"YF.C05_Model", "YF.C05_Check"}, "case", "check")
-	specs := vc05Specs(rng, 1, thorough, 1000)
+	nCoq := 9
+	if thorough {
+		nCoq = 1000
+	}
+	specs := vc05Specs(rng, 1, thorough, nCoq)
 	for _, spec := range specs {
 		idx := filepath.Join(dir, spec.Name+".idx")
 		res := vc05Exercise(spec, idx)
